@@ -905,6 +905,8 @@ def eval_dyad_reshape(a, b, backend):
         if a == 0:
             r = b
         elif np_backend.isarray(b):
+            if a == -1:
+                a = b.shape[0] // 2 # half the size of the source
             if a < b.shape[0]:
                 r = b[:a]
             else:
